@@ -15,8 +15,8 @@ CONSTANTS
   PayLens = {2, 9}
   BatchSizes = {1, 2}
   AllowExplicit = FALSE
-  MaxDamage = 2
-  DamageKinds = {"crc", "type", "zero", "len_badtype"}
+  MaxDamage = 1
+  DamageKinds = {"len_embeds"}
   CrcQuarantinesBlock = FALSE
   MinOpsBeforeCrash = 0
   WithPersistCalls = FALSE
